@@ -480,7 +480,7 @@ kf_harness!(c14_kf_jitter_overflow, |o, i, mx, m, j| m == 2.0 && j && i <= mx &&
 // Bound checked in exact integer arithmetic: extra_ms * 10 <= base_ms * 3 (base < 2^31 s keeps
 // `ms as f64` exact, so no rounding slack is needed).
 macro_rules! retry_jitter {
-    ($name:ident, $word:expr, $bits:expr) => {
+    ($name:ident, $word:expr, $bits:expr, $fixed:expr) => {
         #[kani::proof]
         #[kani::unwind(3)]
         #[kani::stub(tracing_core::callsite::DefaultCallsite::interest, interest_never)]
@@ -493,9 +493,14 @@ macro_rules! retry_jitter {
         #[kani::stub(reqwest::Error::is_connect, reqwest_pred_false)]
         #[kani::stub(std::io::ErrorKind::from_prim, error_kind_from_prim_other)]
         fn $name() {
-            let initial = any_duration();
-            let first = any_outcome();
+            let mut initial = any_duration();
+            let mut first = any_outcome();
             let w: u64 = $word;
+            if $fixed {
+                // concrete base waits (1 s back-off, 10 s hint), generator word symbolic
+                initial = Duration::from_secs(1);
+                first.hint = Duration::from_secs(10);
+            }
             kani::assume(first.kind != K_OK && spec_retryable(&first));
             kani::assume(initial.as_secs() < (1 << $bits) && first.hint.as_secs() < (1 << $bits));
             let outs = [first, Outcome { kind: K_OK, val: 7, code: 100, hint: Duration::ZERO }];
@@ -517,16 +522,21 @@ macro_rules! retry_jitter {
             let base_ms = base.as_millis();
             assert!(extra_ms * 10 <= base_ms * 3, "jitter exceeds 30% of the wait");
             kani::cover!(extra_ms > 0 && first.kind == K_RATE_HINT, "non-zero jitter on a hinted wait");
-            kani::cover!(extra_ms * 10 + 10 > base_ms * 3 && base_ms > 1000, "jitter close to the 30% bound");
+            kani::cover!(extra_ms * 10 + 20 > base_ms * 3 && base_ms >= 1000, "jitter close to the 30% bound");
             std::mem::forget(res);
         }
     };
 }
-// @family prop=C14 tier=quick timeout=900 replay=none role=retry-jitter
-// @bounds one retryable failure (kind symbolic; hinted or not) then Ok, max_attempts = 1, jitter on; base wait (initial_backoff or Retry-After hint) any Duration < 2^31 s; generator word: `top` = the 12 most significant bits symbolic, rest ones (4096 draws spread over [0, 0.3], incl. the largest possible); `low` = the 52 low bits symbolic, top bits ones (draws next to the upper end)
+// @family prop=C14 tier=quick timeout=900 replay=none role=retry-jitter-fixed-base
+// @bounds one retryable failure (kind symbolic; hinted or not) then Ok, max_attempts = 1, jitter on; base wait concrete (initial_backoff 1 s, Retry-After hint 10 s); generator word fully symbolic (every possible draw of random_range(0.0..0.3))
 // @encodes cascette_protocol::retry::RetryPolicy::execute, rand::RngExt::random_range, rand::distr::uniform::UniformFloat::sample_single_inclusive
-// @assumes as c14_retry_loop_control_a1; rand::rng replaced by a handle on a static fake Rc, ThreadRng::try_next_u64 returns the harness-drawn word (native replay would use the real generator: replay=none); the generator word is restricted as stated (a fully symbolic word makes the bound a 53x53-bit multiplier inequality)
+// @assumes as c14_retry_loop_control_a1; rand::rng replaced by a handle on a static fake Rc, ThreadRng::try_next_u64 returns the harness-drawn word (native replay would use the real generator: replay=none)
 // @catches jitter range widened (0.0..0.5), jitter applied twice or to the hint only / back-off only, jitter subtracted, seconds/milliseconds mixed up in the jitter computation, jitter drawn but not added
-retry_jitter!(c14_retry_jitter_max_b31, u64::MAX, 31);
-retry_jitter!(c14_retry_jitter_max_b10, u64::MAX, 10);
+retry_jitter!(c14_retry_jitter_fixed_base, kani::any::<u64>(), 31, true);
+// @end
+// @family prop=C14 tier=thorough timeout=3300 mem=24 replay=none role=retry-jitter-max-draw
+// @bounds as c14_retry_jitter_fixed_base but base wait (initial_backoff or hint) any Duration < 2^10 s (b10) and the generator word fixed to the largest draw (all ones -> jitter factor next to 0.3)
+// @encodes cascette_protocol::retry::RetryPolicy::execute, rand::RngExt::random_range
+// @assumes as c14_retry_jitter_fixed_base; a symbolic base together with a symbolic draw is a 53x53-bit multiplier inequality the SAT back end does not finish (measured: > 15 min with 12 symbolic draw bits; base < 2^31 s with the fixed draw > 11 min)
+retry_jitter!(c14_retry_jitter_max_b10, u64::MAX, 10, false);
 // @end
